@@ -147,6 +147,15 @@ PROPS = {
             part("searchset", "TestVerif_C17_Candidates", "candidates", 12000, 200000, shards=(8, 16)),
         ],
     },
+    "C18": {
+        "rule": "reference-model testing: Parse and ChunkIterator against a reference lexer written from the exported per-language tables, exhaustively over all short strings of delimiter-rich alphabets (19 style configurations + every language) and over generated programs",
+        "assumptions": ["after an unterminated string or multi-line comment only the comments that ended before it are compared", "'consecutive lines' in ChunkIterator is read as consecutive start lines, the rule pinned by the repository's own test", "text is compared rune-wise (U+FFFD for invalid bytes)"],
+        "timeout": {"quick": 600, "thorough": 3000},
+        "parts": [
+            part("commentparser", "TestVerif_C18_Enum", "small-scope", 0, 0, shards=(12, 16), enum=True, prewrite_watchdog=True, prewrite=False),
+            part("commentparser", "TestVerif_C18_Programs", "programs", 20000, 400000, shards=(4, 16)),
+        ],
+    },
     "C19": {
         "rule": "differential: the identify_license binary and backend.ClassifyLicenses run over generated file sets vs the library's Match per file computed in process (stdout multiset, exit status, JSON classifications and Text, independence of -tasks)",
         "assumptions": ["'reported' is read as 'printed' (Copyright pseudo-matches included)", "file names contain no blanks (the output format is blank separated)", "-tasks >= 1"],
@@ -236,6 +245,36 @@ MANIFEST_TEXT = {
         "level": "Generated concurrent batches (2-64 goroutines, barrier start, mixed Match/MatchFrom, edited inputs that drive the diff library's half-match path) executed under the Go race detector, plus comparison of every concurrent result with a sequential reference. Found the shared-runes race F2 (fixed). The schedule is sampled, not owned; the race detector's happens-before analysis makes the verdict independent of the interleaving for the executed paths.",
         "note": _V2NOTE + " Race reports need no confirmation (no false positives); the in-flight batch is saved as the replay.",
         "technique": "generated concurrent workloads under the race detector (invariant monitor) + differential comparison with a sequential reference",
+    },
+    "C13": {
+        "level": "Generated-input search with a constructive oracle: vocabularies with regular-expression metacharacters, Unicode and invalid UTF-8, known-value sets with unique tokens, normaliser lists and unknown strings built around planted copies; every verbatim copy must be reported with exact Offset / Extent / Confidence 1.0 and AddValue must accept every string. Found F5 (regular-expression compilation) and F17 (one-token values), both fixed. Bounded exploration.",
+        "note": "In-package harness (package stringclassifier). Panics on goroutines spawned by the library kill the process; the case in flight is written first and adopted by the driver.",
+        "technique": "property-based testing (rapid) with a constructive oracle",
+    },
+    "C14": {
+        "level": "Generated concurrent workloads (barrier start on a fresh classifier so the lazily built search sets are created concurrently; mixes of MultipleMatch, NearestMatch, AddValue; License built from a precomputed archive) executed under the Go race detector, with every result compared with a sequential reference. Found the lazy search-set race F6 (fixed). Schedules are sampled.",
+        "note": "Built with -race. Texts are kept small so that go-diff's 1 s wall-clock deadline is never near.",
+        "technique": "generated concurrent workloads under the race detector + differential comparison with a sequential reference",
+    },
+    "C15": {
+        "level": "Differential testing: for generated archives (real license files in drawn order plus synthetic ones served through the swapped ReadLicenseFile variable) the classifier loaded from ArchiveLicenses' output is compared with one built directly from the same normalised texts with fresh search sets, on generated queries (MultipleMatch in both header modes, NearestMatch with tie analysis). Bounded exploration.",
+        "note": "External test package in the repository root with a guarded in-package export helper (injected, not committed); the root package's own TestMain (needs licenses.db, not shipped) is hidden from the build through the overlay.",
+        "technique": "differential property-based testing (rapid) of a serialisation round trip",
+    },
+    "C16": {
+        "level": "Exhaustive enumeration of every shipped license file x 9 presentation variants against a classifier built in process from the whole licenses/ directory (all in thorough; every file as is plus a rotating quarter of the variants in quick), plus generated threshold-bound cases for MultipleMatch. Exhaustive over the corpus, bounded otherwise.",
+        "note": "The archive is built in process with serializer.ArchiveLicenses because licenses.db is not part of the repository.",
+        "technique": "exhaustive enumeration over the corpus x variants + property-based testing (rapid) of the threshold bound",
+    },
+    "C17": {
+        "level": "Generated-input search with validity predicates: strings over all kinds of Unicode space / punctuation and invalid UTF-8 for the tokenizer invariants (offsets reproduce the text, increasing, covering every non-space byte); low-vocabulary repetitive source/target pairs for the candidate-range invariants of FindPotentialMatches / TargetRange. Found F7 (invalid UTF-8 token text), fixed. Bounded exploration.",
+        "note": "In-package harnesses (packages tokenizer and searchset).",
+        "technique": "property-based testing (rapid) with validity-predicate oracles",
+    },
+    "C18": {
+        "level": "Reference-model testing, exhaustive in small scope: every string of up to 5 (quick) / 7 (thorough) atoms over delimiter-rich alphabets for 19 style configurations and every language at a smaller bound, plus generated long programs, compared with a reference lexer written from the exported language tables; ChunkIterator is checked for exactly-once, order and grouping. Found and repaired two lexer defects (F15, F16); after the repair the implementation and the reference agree on all enumerated strings.",
+        "note": "In-package harness (package commentparser). The reference asserts nothing after an unterminated string / multi-line comment.",
+        "technique": "exhaustive small-scope enumeration + property-based testing (rapid) against a reference model",
     },
     "C19": {
         "level": "Differential testing of the built binary and of the backend against the library: generated file sets, argument shapes and flag combinations; stdout multiset, exit status, JSON classifications and Text are compared with in-process Match results. Found the 64 KiB line defect F8 (fixed). Bounded exploration; the -tasks fan-out is additionally run under -race in the thorough tier.",
